@@ -412,6 +412,56 @@ class Inject2:
         return held[0]
 
 
+class ThreeWay:
+    """three threads in one exact order: `base` decides among the others until decision `at`; then
+    the held thread runs `burst` of its own steps; then time is let pass once (if the thread
+    `second` is asleep) and `second` runs until it blocks or ends; then the held thread runs to its
+    end; then `base` decides.  (A stop request cut in two by a clock tick.)"""
+
+    def __init__(self, base, hold, at, burst, second):
+        self.base = base
+        self.hold = hold
+        self.at = at
+        self.burst = burst
+        self.second = second
+        self.given = 0
+        self.phase = 0
+        self.advanced = False
+        self.second_ran = False
+
+    def __call__(self, sched, runnable, can_advance):
+        held = [t for t in runnable if t.name == self.hold]
+        others = [t for t in runnable if t.name != self.hold]
+        n = len(sched.decisions)
+        if self.phase == 0:
+            if n < self.at or not held:
+                if others:
+                    return self.base(sched, others, can_advance)
+                if can_advance:
+                    return ADVANCE
+                return held[0]
+            self.phase = 1
+        if self.phase == 1:
+            if held and self.given < self.burst:
+                self.given += 1
+                return held[0]
+            self.phase = 2
+        if self.phase == 2:
+            sec = [t for t in runnable if t.name == self.second]
+            if sec:
+                self.second_ran = True
+                return sec[0]
+            if not self.second_ran and not self.advanced and can_advance:
+                self.advanced = True
+                return ADVANCE
+            self.phase = 3
+        if self.phase == 3:
+            if held:
+                return held[0]
+            self.phase = 4
+        return self.base(sched, runnable, can_advance)
+
+
 # ------------------------------------------------------------------------------ scheduler
 class Sched:
     def __init__(self, policy=None, t0=1000000.0, trace=None, namer=None, max_steps=20000,
